@@ -43,6 +43,20 @@ def pmap(func, chunks, nproc):
     return out
 
 
+def pmap_collect(func, chunks, nproc):
+    """like pmap but returns the list of per-chunk results (any order), unmerged"""
+    global _FUNC
+    _FUNC = func
+    if nproc > 1 and len(chunks) > 1:
+        pool = mp.get_context("fork").Pool(nproc)
+        try:
+            return list(pool.imap_unordered(_call, chunks))
+        finally:
+            pool.close()
+            pool.join()
+    return [func(c) for c in chunks]
+
+
 def chunked(seq, n):
     seq = list(seq)
     return [seq[i:i + n] for i in range(0, len(seq), n)]
